@@ -60,13 +60,25 @@ func (l *Log) Add(kind, key string, id int64, info string) int64 {
 	return t
 }
 
-// Slice renders the last max events whose key contains sub ("" = all).
+// keyMatch: keys are either a name, an address, or "address|name"; sub
+// selects a whole component, never a prefix of one ("r2" must not match "r21").
+func keyMatch(key, sub string) bool {
+	if key == sub {
+		return true
+	}
+	if i := strings.IndexByte(key, '|'); i >= 0 {
+		return key[:i] == sub || key[i+1:] == sub
+	}
+	return false
+}
+
+// Slice renders the last max events of the connection / client sub ("" = all).
 func (l *Log) Slice(sub string, max int) string {
 	l.mu.Lock()
 	defer l.mu.Unlock()
 	var sel []Event
 	for _, e := range l.ev {
-		if sub == "" || strings.Contains(e.Key, sub) {
+		if sub == "" || keyMatch(e.Key, sub) {
 			sel = append(sel, e)
 		}
 	}
